@@ -5,10 +5,21 @@ import (
 	"bytes"
 	"context"
 	"crypto/sha256"
+	"crypto/tls"
+	"crypto/x509"
 	"encoding/hex"
 	"errors"
 	"fmt"
+	"github.com/attestantio/dirk/services/sender"
+	grpcsender "github.com/attestantio/dirk/services/sender/grpc"
+	"github.com/attestantio/dirk/testing/resources"
 	"github.com/attestantio/dirk/util/verifhook"
+	"google.golang.org/grpc"
+	"google.golang.org/grpc/codes"
+	"google.golang.org/grpc/credentials"
+	"google.golang.org/grpc/resolver"
+	"google.golang.org/grpc/status"
+	"net"
 	"os"
 	"sort"
 	"strconv"
@@ -79,15 +90,28 @@ type cluster struct {
 	fault   *dkgFault
 	mu      sync.Mutex
 	log     []string // message log of the last generation
+	servers []*grpc.Server
 }
 
 func peerName(idx int) string { return fmt.Sprintf("signer-test%02d", idx+1) }
 
-func newCluster(dir string, ids []uint64, timeout time.Duration) *cluster {
+func newCluster(dir string, ids []uint64, timeout time.Duration, overGRPC bool) *cluster {
 	initBLS()
 	c := &cluster{dir: dir, insts: map[uint64]*dkgInst{}, ids: ids, peerMap: map[uint64]string{}}
+	listeners := map[uint64]net.Listener{}
 	for i, id := range ids {
 		c.peerMap[id] = fmt.Sprintf("%s:%d", peerName(i), 13000+i)
+		if overGRPC {
+			// the real transport: each instance serves the key-generation API over TLS on a loopback port and talks to the
+			// others through dirk's own gRPC sender; the host names of the test certificates resolve to loopback
+			registerLoopbackResolver()
+			l, err := net.Listen("tcp", "127.0.0.1:0")
+			if err != nil {
+				panic(err)
+			}
+			listeners[id] = l
+			c.peerMap[id] = fmt.Sprintf("%s:%d", peerName(i), l.Addr().(*net.TCPAddr).Port)
+		}
 	}
 	ctx := context.Background()
 	for i, id := range ids {
@@ -122,9 +146,18 @@ func newCluster(dir string, ids []uint64, timeout time.Duration) *cluster {
 		if err != nil {
 			panic(err)
 		}
+		var snd sender.Service = &router{c: c, from: in}
+		if overGRPC {
+			certID := uint64(i + 1)
+			snd, err = grpcsender.New(ctx, grpcsender.WithName(in.name), grpcsender.WithServerCert(resources.SignerCerts[certID]),
+				grpcsender.WithServerKey(resources.SignerKeys[certID]), grpcsender.WithCACert(resources.CACrt))
+			if err != nil {
+				panic(err)
+			}
+		}
 		params := []standardprocess.Parameter{
 			standardprocess.WithChecker(chk), standardprocess.WithUnlocker(in.unlocker),
-			standardprocess.WithSender(&router{c: c, from: in}), standardprocess.WithFetcher(in.fetcher),
+			standardprocess.WithSender(snd), standardprocess.WithFetcher(in.fetcher),
 			standardprocess.WithEncryptor(enc), standardprocess.WithPeers(peersSvc), standardprocess.WithID(id),
 			standardprocess.WithStores([]e2wtypes.Store{in.store}), standardprocess.WithGenerationPassphrase([]byte("pass")),
 		}
@@ -138,6 +171,9 @@ func newCluster(dir string, ids []uint64, timeout time.Duration) *cluster {
 		in.handler, err = receiver.New(ctx, receiver.WithPeers(peersSvc), receiver.WithProcess(in.process))
 		if err != nil {
 			panic(err)
+		}
+		if overGRPC {
+			c.serve(in, listeners[id], uint64(i+1))
 		}
 		in.rules, err = standardrules.New(ctx, standardrules.WithStoragePath(fmt.Sprintf("%s/rules-%d", dir, id)))
 		if err != nil {
@@ -166,6 +202,79 @@ func (c *cluster) close() {
 	for _, in := range c.insts {
 		in.rules.Close(context.Background())
 	}
+	for _, s := range c.servers {
+		s.Stop()
+	}
+}
+
+var loopbackOnce sync.Once
+
+type loopbackBuilder struct{}
+
+func (loopbackBuilder) Scheme() string { return "dns" }
+func (loopbackBuilder) Build(target resolver.Target, cc resolver.ClientConn, _ resolver.BuildOptions) (resolver.Resolver, error) {
+	_, port, err := net.SplitHostPort(target.Endpoint())
+	if err != nil {
+		return nil, err
+	}
+	if err := cc.UpdateState(resolver.State{Addresses: []resolver.Address{{Addr: net.JoinHostPort("127.0.0.1", port)}}}); err != nil {
+		return nil, err
+	}
+	return loopbackResolver{}, nil
+}
+
+type loopbackResolver struct{}
+
+func (loopbackResolver) ResolveNow(resolver.ResolveNowOptions) {}
+func (loopbackResolver) Close()                                {}
+
+// registerLoopbackResolver makes every host name (signer-test01 …) resolve to 127.0.0.1 for gRPC clients of this
+// process; the TLS server name is still the dialled name, so certificates are verified against it
+func registerLoopbackResolver() { loopbackOnce.Do(func() { resolver.Register(loopbackBuilder{}) }) }
+
+// serve starts the key-generation API of one instance over mutual TLS, with dirk's client-info interceptor and a
+// fault-injecting interceptor behind it (status codes in place of a reply, before or after the handler ran)
+func (c *cluster) serve(in *dkgInst, l net.Listener, certID uint64) {
+	pair, err := tls.X509KeyPair(resources.SignerCerts[certID], resources.SignerKeys[certID])
+	if err != nil {
+		panic(err)
+	}
+	pool := x509.NewCertPool()
+	pool.AppendCertsFromPEM(resources.CACrt)
+	creds := credentials.NewTLS(&tls.Config{Certificates: []tls.Certificate{pair}, ClientAuth: tls.RequireAndVerifyClientCert, ClientCAs: pool, MinVersion: tls.VersionTLS13})
+	faulty := func(ctx context.Context, req any, info *grpc.UnaryServerInfo, handler grpc.UnaryHandler) (any, error) {
+		method := strings.ToLower(info.FullMethod[strings.LastIndex(info.FullMethod, "/")+1:])
+		c.mu.Lock()
+		c.log = append(c.log, fmt.Sprintf("%s:>%d", method, in.id))
+		f := c.fault
+		hit := f != nil && (f.kind == "statusreply" || f.kind == "statusreq") && f.msg == method && f.to == in.id && !f.hit
+		if hit {
+			f.hit = true
+		}
+		c.mu.Unlock()
+		if hit {
+			code := codes.DeadlineExceeded
+			switch f.arg {
+			case "Canceled":
+				code = codes.Canceled
+			case "Unavailable":
+				code = codes.Unavailable
+			case "Internal":
+				code = codes.Internal
+			case "ResourceExhausted":
+				code = codes.ResourceExhausted
+			}
+			if f.kind == "statusreply" {
+				_, _ = handler(ctx, req) // the request is served, the reply is lost
+			}
+			return nil, status.Error(code, "injected: no reply")
+		}
+		return handler(ctx, req)
+	}
+	srv := grpc.NewServer(grpc.Creds(creds), grpc.ChainUnaryInterceptor(interceptors.ClientInfoInterceptor(), faulty))
+	pb.RegisterDKGServer(srv, in.handler)
+	c.servers = append(c.servers, srv)
+	go func() { _ = srv.Serve(l) }()
 }
 
 // router implements sender.Service on top of the other instances' receiver handlers.
@@ -709,7 +818,7 @@ func dkgEngine(workdir string) {
 			ms, _ := strconv.Atoi(f[2])
 			d := fmt.Sprintf("%s/c%d", workdir, n)
 			os.MkdirAll(d, 0o755)
-			c = newCluster(d, parseIDs(f[1]), time.Duration(ms)*time.Millisecond)
+			c = newCluster(d, parseIDs(f[1]), time.Duration(ms)*time.Millisecond, len(f) > 3 && f[3] == "grpc")
 			res = "ok"
 		case "gen":
 			// gen <initiator> <client> <account> <t> <n> <fault>
